@@ -7,12 +7,14 @@
 package main
 
 import (
+	"encoding/json"
 	"errors"
 	"flag"
 	"fmt"
 	"io"
 	"log"
 	"os"
+	"runtime"
 	"runtime/debug"
 	"sort"
 	"time"
@@ -290,6 +292,22 @@ func (r *runner) exec(o op) {
 		r.emit(vt.Ev{"e": "Begin", "t": o.T, "rts": int(x.ReadTs()), "upd": o.Upd})
 	case "Get":
 		r.get(o.T, o.K)
+	case "Scan":
+		it := r.txn(o.T).NewIterator(NoKV.IteratorOptions{})
+		res := []map[string]any{}
+		for it.Rewind(); it.Valid() && len(res) < 64; it.Next() {
+			x := it.Item()
+			v, err := x.ValueCopy(nil)
+			tok := ""
+			if err != nil {
+				tok = "ERR:" + err.Error()
+			} else {
+				tok = eng.Shrink(v)
+			}
+			res = append(res, map[string]any{"k": string(x.Entry().Key), "v": tok})
+		}
+		it.Close()
+		r.emit(vt.Ev{"e": "Scan", "t": o.T, "res": res})
 	case "Set":
 		n := o.Len
 		if n <= 0 {
@@ -364,10 +382,15 @@ func runSchedule(base string, s *schedule, w *vt.Writer) {
 			if pan != nil {
 				panic(pan)
 			}
-		case <-time.After(60 * time.Second):
+		case <-time.After(240 * time.Second):
 			r.emit(vt.Ev{"e": "Hang", "op": o.Op})
 			w.Close()
-			vt.Fatal("schedule %d: %s did not return within 60s", s.ID, o.Op)
+			buf := make([]byte, 1<<20)
+			n := runtime.Stack(buf, true)
+			os.WriteFile(fmt.Sprintf("%s/hang-%d.txt", base, s.ID), buf[:n], 0o644)
+			b, _ := json.Marshal(s)
+			os.WriteFile(fmt.Sprintf("%s/hang-%d.json", base, s.ID), b, 0o644)
+			vt.Fatal("schedule %d: %s did not return within 240s", s.ID, o.Op)
 		}
 	}
 	if !r.closed {
